@@ -70,7 +70,7 @@ func c04CastScenario(rt c12Route) Scenario {
 			if sv == st {
 				class = "BACKENDS-DIFFER:output after an admitted cast"
 			}
-			ex := c12Expectation(v, t, rt.Allow)
+			ex := c12Expectation(c12RouteValue(rt, v), t, rt.Allow)
 			tags := []string{"route:" + rt.Name, "shape:" + firstMismatch(v, t), "expect:" + ex.Must}
 			r.Fail(class, tags, cas, fmt.Sprintf("value %s, target `%s`\nvm:   %s\ntree: %s", v, t, ov.String(), ot.String()))
 		},
